@@ -23,6 +23,7 @@ PROPS = {
     "C06": ["contracts.c06_constructors"],
     "C12": ["contracts.c12_oracles"],
     "C13": ["contracts.c13_logics"],
+    "C16": ["contracts.c16_tracking"],
 }
 
 
